@@ -520,6 +520,12 @@ class Body:
             c = d[3]
             f = c["f"]
             nm = f.get("res") or f.get("fn") or "ind"
+            mconv = re.match(r"^<(\w+) as std::convert::(From|Into)<(\w+)>>::(from|into)$", f.get("full") or "")
+            if mconv and len(c["args"]) == 1 and INT_TY.match(mconv.group(1)) and INT_TY.match(mconv.group(3)):
+                # a conversion between integer types through From/Into is a (value-preserving) cast
+                dst = mconv.group(1) if mconv.group(2) == "From" else mconv.group(3)
+                inner = self.oname(c["args"][0], depth - 1, seen)
+                return inner if re.match(r"^-?\d+$", inner) else "%s as %s" % (inner, dst)
             cb = self.facts.bodies.get(nm) if f.get("loc") else None
             if cb is not None and self.facts._canon is not None:
                 nm = self.facts.canon_of(cb)      # rename-resolved name of a crate-local callee
@@ -534,12 +540,20 @@ class Body:
         if k == "ref":
             return "&" + self.pname(rv["p"], depth, seen)
         if k == "cast":
+            if rv["kind"].startswith("IntToInt"):
+                kc = op_const(rv["o"])
+                if kc is not None and (const_int(kc) is not None or (kc.get("def") and "int" in (self.facts.consts.get(kc["def"]) or {}))):
+                    return self.oname(rv["o"], depth - 1, seen)      # a cast of an integer constant is that constant
             if rv["kind"].startswith("IntToInt") or rv["kind"].startswith("PointerCoercion") or rv["kind"].startswith("Transmute"):
                 return "%s as %s" % (self.oname(rv["o"], depth - 1, seen), short_ty(rv["ty"]))
             return "cast(%s)" % self.oname(rv["o"], depth - 1, seen)
         if k == "bin":
             op = rv["op"].replace("WithOverflow", "")
-            return "%s(%s,%s)" % (op, self.oname(rv["a"], depth - 1, seen), self.oname(rv["b"], depth - 1, seen))
+            ra, rb = self.oname(rv["a"], depth - 1, seen), self.oname(rv["b"], depth - 1, seen)
+            if op in ("Add", "Sub", "Mul") and re.match(r"^-?\d+$", ra) and re.match(r"^-?\d+$", rb):
+                # arithmetic on two constants renders as its value (`BASE - 1` is `84`)
+                return str({"Add": int(ra) + int(rb), "Sub": int(ra) - int(rb), "Mul": int(ra) * int(rb)}[op])
+            return "%s(%s,%s)" % (op, ra, rb)
         if k == "un":
             if rv["op"] == "PtrMetadata":
                 return "len(%s)" % self.oname(rv["o"], depth - 1, seen)
@@ -705,6 +719,9 @@ class Body:
         return d
 
 
+INT_TY = re.compile(r"^(u8|u16|u32|u64|u128|usize|i8|i16|i32|i64|i128|isize)$")
+
+
 def _remap(x, loff, boff):
     """shift every local and block number inside a MIR JSON fragment (used by Facts.inlined)."""
     if isinstance(x, dict):
@@ -838,8 +855,8 @@ class Facts:
         for path, b in self.bodies.items():
             if b.kind == "Closure" or self.canon_of(b) in anchors:
                 continue
-            if not b.vis.startswith("Restricted") or b.vis.startswith("Restricted(DefId(0:0 ") or b.n > 160:
-                continue
+            if not b.vis.startswith("Restricted") or b.n > 160:
+                continue          # (pub(crate) counts: a new crate-internal function is still a piece of reviewed code that moved)
             new[path] = b
         if not new:
             return
@@ -848,11 +865,7 @@ class Facts:
             if len(comp) > 1 or comp[0] in self.callgraph.get(comp[0], ()):
                 rec.update(comp)
         new = {k: v for k, v in new.items() if k not in rec}
-        # only helpers all of whose callers are in the same file
         for path, b in self.bodies.items():
-            for c in b.calls:
-                if c.local and c.name in new and new[c.name].file != b.file:
-                    new.pop(c.name, None)
             for name, loc, _ in b.fn_mentions():
                 if loc and name in new:
                     new.pop(name, None)      # used as a value (passed as fn item): keep it a function of its own
@@ -998,6 +1011,29 @@ class Facts:
             if cands and (len(cands) == 1 or cands[0][0] > cands[1][0]) and (cands[0][0] > 0 or not info["callers"]):
                 alias[m[cands[0][1]][0].path] = a
                 taken.add(cands[0][1])
+        # second pass: the function moved to another type / became a free function (or the reverse): same signature
+        # (parameter and return types) and mostly the same callers; stricter on the callers because less else is compared
+        for a in sorted(missing):
+            if a in alias.values():
+                continue
+            info = anchors[a]
+            cands = []
+            for e in extra:
+                if e in taken:
+                    continue
+                b = m[e][0]
+                if b.kind not in ("Fn", "AssocFn") or info["kind"] not in ("Fn", "AssocFn"):
+                    continue
+                if [b.lty(i) for i in range(0, b.argc + 1)] != info["sig"]:
+                    continue
+                cs = cg_callers.get(e, set())
+                want = set(info["callers"])
+                j = len(cs & want) / float(len(cs | want) or 1)
+                cands.append((j, e))
+            cands.sort(reverse=True)
+            if cands and cands[0][0] >= 0.5 and (len(cands) == 1 or cands[0][0] > cands[1][0]):
+                alias[m[cands[0][1]][0].path] = a
+                taken.add(cands[0][1])
         return alias
 
     def fn(self, name):
@@ -1054,7 +1090,7 @@ class Facts:
     # ---- inlining of private helpers (analysis-time only)
     def inlinable(self, caller, callee):
         """a new private helper (see _apply_reviewed_view) of the same file."""
-        return callee.path in self.new_helpers and callee.file == caller.file and callee.path != caller.path
+        return callee.path in self.new_helpers and callee.path != caller.path
 
     def inlined(self, body, depth=3, _stack=()):
         """a synthetic Body in which every call to an inlinable helper is replaced by the helper's blocks (parameters are
